@@ -5,15 +5,18 @@
    string and page size; mergedEnumerate (used by replica, shard, union, overlay) = first `limit` of the sorted
    union for any number of sources; the replica, shard, cond and proxycache combinators each refine the SPEC whenever
    their children do (shard: under the invariant that every ref lives in the kid its digest routes to; proxycache:
-   under the invariant that the cache holds only blobs of the origin; eviction is not modelled), hence (by induction
-   on the configuration) every nesting of these four over leaves does, for every operation sequence.
-   The remaining combinators (overlay, namespace, union) are executable models tied to the code and to the SPEC by
-   the correspondence run only: the nesting theorem is therefore still named _partial. *)
+   under the invariant that the cache holds only blobs of the origin; eviction is not modelled); so do namespace
+   (abstraction: the master restricted to the inventory) and overlay with a deleted index (abstraction: upper and
+   lower merged, minus the deleted refs; the refill loop of its enumeration is proved to return the first `limit`
+   undeleted entries after the cursor, the number of rounds bounded by the number of entries held); hence (by
+   induction on the configuration) every nesting of these six over leaves does, for every operation sequence.
+   union is read-only (its own theorem), overlay without a deleted index refuses removals: neither is a map and
+   both stay outside the nesting theorem; leaves are maps here (their internals: C03, C04, C11). *)
 From Coq Require Import List NArith ZArith Bool.
 From PK.Base Require Import Bytes Lex SortedMap.
 From PK.Model Require Import Merge C12 C01.
 From PK.Proofs Require Import SortedMapLemmas Paging.
-From PK.Proofs Require MergeLemmas C01.
+From PK.Proofs Require MergeLemmas C01 C01b.
 Import ListNotations.
 
 Theorem C01_fetch_after_receive : forall m r b sc, lookup r m = None ->
@@ -86,12 +89,45 @@ Theorem C01_proxycache_refines : forall content tc to,
 Proof. exact C01.proxycache_refines. Qed.
 Print Assumptions C01_proxycache_refines.
 
-(* every nesting (any depth, any fan-out >= 1) of replicas, shards, cond and proxycache over removable leaves answers
-   every operation sequence exactly like the reference map *)
-Theorem C01_nest_behaves_as_map_partial : forall content c ops, C01.shape_ok c = true ->
-  Forall (C01.op_ok content) ops -> run (sem c) (init c) ops = C01.run_spec [] ops.
-Proof. exact C01.nest_behaves_as_map. Qed.
-Print Assumptions C01_nest_behaves_as_map_partial.
+(* namespace behaves as the part of its master that its inventory names: removal only forgets the inventory row,
+   a later upload of the same ref finds the bytes in the master and lists them again *)
+Theorem C01_namespace_refines : forall content tm,
+  C01.refines content (C01.tM tm) (C01.tA tm) (C01.tI tm) ->
+  C01.refines content (namespace (C01.tM tm)) (C01b.ns_abs tm) (C01b.ns_inv tm).
+Proof. exact C01b.namespace_refines. Qed.
+Print Assumptions C01_namespace_refines.
+
+(* overlay with a deleted index behaves as (lower merged with upper) minus the deleted refs: uploads go to the upper
+   layer and un-delete, removals go to the upper layer and the deleted index, reads fall through, the enumeration's
+   refill loop returns exactly the first `limit` undeleted entries after the cursor *)
+Theorem C01_overlay_refines : forall content tl tu,
+  C01.refines content (C01.tM tl) (C01.tA tl) (C01.tI tl) -> C01.refines content (C01.tM tu) (C01.tA tu) (C01.tI tu) ->
+  C01b.bounded tl -> C01b.bounded tu ->
+  C01.refines content (overlay true (C01.tM tl) (C01.tM tu)) (C01b.ov_abs tl tu) (C01b.ov_inv tl tu).
+Proof. exact C01b.overlay_refines. Qed.
+Print Assumptions C01_overlay_refines.
+
+(* the refill loop on maps, for any number of rounds that exceeds the entries after the cursor *)
+Theorem C01_overlay_refill_exact : forall fuel U d c n, ssorted U -> (length (after c U) < fuel)%nat ->
+  C01b.ov_enum_spec fuel U d c n = firstn n (filter (not_deleted d) (after c U)).
+Proof. exact C01b.ov_enum_spec_exact. Qed.
+Print Assumptions C01_overlay_refill_exact.
+
+(* ... and a bound on the rounds that depends on the limit alone is not enough (three deleted blobs in a row, limit 1,
+   three rounds): the model's bound is the number of entries held *)
+Theorem C01_overlay_refill_needs_rounds :
+  let U := [([1%N], [1%N]); ([2%N], [1%N]); ([3%N], [1%N]); ([4%N], [1%N])] in
+  let d := [([1%N], one); ([2%N], one); ([3%N], one)] in
+  C01b.ov_enum_spec 3 U d [] 1 = [] /\ firstn 1 (filter (not_deleted d) (after [] U)) = [([4%N], [1%N])].
+Proof. exact C01b.refill_needs_rounds. Qed.
+Print Assumptions C01_overlay_refill_needs_rounds.
+
+(* every nesting (any depth, any fan-out >= 1) of replicas, shards, cond, proxycache, namespace and overlay (with a
+   deleted index) over removable leaves answers every operation sequence exactly like the reference map *)
+Theorem C01_nest_behaves_as_map : forall content c ops, C01b.shape_ok c = true ->
+  Forall (C01.op_ok content) ops -> run (sem c) (init c) ops = C01b.run_spec [] ops.
+Proof. exact C01b.nest_behaves_as_map. Qed.
+Print Assumptions C01_nest_behaves_as_map.
 
 Theorem C01_union_readonly : forall ms s o, (match o with Recv _ _ _ | Remove _ => True | _ => False end) ->
   match s with SNode _ _ => union_m ms s o = (s, OErr EReadonly) | _ => True end.
@@ -102,12 +138,14 @@ Theorem C01_subfetch_whole : forall b, subfetch b 0 (Z.of_nat (length b)) = Some
 Proof. exact C01.subfetch_whole. Qed.
 Print Assumptions C01_subfetch_whole.
 
-(* non-vacuity: a four-level nesting of all four proved combinators meets the hypotheses and behaves as the map *)
+(* non-vacuity: a nesting of all six proved combinators meets the hypotheses and behaves as the map *)
 Example C01_nonvacuous :
-  let c := ProxyCache (Leaf true) (Shard [Replica [Replica [Leaf true; Leaf true]; Leaf true]; Cond (Leaf true) (Leaf true)]) in
-  let ops := [Recv [1%N] [7%N] false; Recv [2%N] [8%N] true; Remove [[1%N]]; Enum [] 5; Fetch [2%N]] in
-  C01.shape_ok c = true /\ Forall (C01.op_ok (fun r => match r with [1%N] => [7%N] | _ => [8%N] end)) ops /\
-  run (sem c) (init c) ops = C01.run_spec [] ops /\
+  let c := ProxyCache (Leaf true) (Shard [Replica [Replica [Leaf true; Namespace (Leaf true)]; Leaf true];
+                                          Overlay true (Cond (Leaf true) (Leaf true)) (Namespace (Leaf true))]) in
+  let ops := [Recv [1%N] [7%N] false; Recv [2%N] [8%N] true; Remove [[1%N]]; Enum [] 5; Recv [1%N] [7%N] false; Remove [[2%N]];
+              Enum [] 1; Fetch [1%N]; Recv [2%N] [8%N] true; Fetch [2%N]] in
+  C01b.shape_ok c = true /\ Forall (C01.op_ok (fun r => match r with [1%N] => [7%N] | _ => [8%N] end)) ops /\
+  run (sem c) (init c) ops = C01b.run_spec [] ops /\
   last (run (sem c) (init c) ops) OOk = OBytes [8%N].
 Proof. split; [reflexivity|]. split; [repeat constructor|]. split; vm_compute; reflexivity. Qed.
 Print Assumptions C01_nonvacuous.
